@@ -65,12 +65,14 @@ def op_strategy():
     ch = st.sampled_from([" ", "-", "*", GC.WIDE[0]])
     ops = [
         st.tuples(st.just("append_str"), i, text_str(6), style_opt()),
-        st.tuples(st.just("append_text"), i, i, st.booleans()),
+        # the last flag: the text is appended to itself (the very same object)
+        st.tuples(st.just("append_text"), i, i, st.booleans(), st.sampled_from([False, False, False, False, True])),
         # append_tokens: (content, style) pairs; control characters that Text removes elsewhere are kept out of the tokens (append_tokens does not remove them)
         st.tuples(st.just("append_tokens"), i, st.lists(st.tuples(text_str(5).map(lambda x: "".join(c for c in x if c not in CTRL)), style_opt()).map(list), max_size=4)),
         st.tuples(st.just("add"), i, i),
         st.tuples(st.just("add_str"), i, text_str(5)),
-        st.tuples(st.just("join"), i, st.lists(i, max_size=3)),
+        # join: what kind of iterable the pieces come in (a list, a tuple, a generator, an iterator, reversed(), map())
+        st.tuples(st.just("join"), i, st.lists(i, max_size=3), st.sampled_from(["list", "list", "tuple", "gen", "iter", "reversed", "map"])),
         st.tuples(st.just("split"), i, st.sampled_from(["\n", " ", "a", "ab", "  "]), st.booleans(), st.booleans(), n),
         st.sampled_from(["ab", "  ", "a ", " a", "\n\n"]).flatmap(lambda sep: st.tuples(st.just("append_split"), i, text_str(4).map(lambda x: sep[1:] + x), style_opt(), st.just(sep), st.booleans(), st.booleans(), n)),
         st.tuples(st.just("divide"), i, st.lists(st.integers(0, 20), max_size=4), n),
@@ -224,9 +226,12 @@ class Histories(Part):
                     mm = mm.append_str(x, sty)
                 new = (t, mm)
             elif name == "append_text":
-                _, _, j, fast = op
+                _, _, j, fast = op[:4]
                 o, om = pool[j % len(pool)]
                 o = sut(o.copy)
+                if len(op) > 4 and op[4]:
+                    o, om = t, m
+                    ctx.cls("appended-to-itself")
                 if fast:
                     sut(t.append_text, o)
                 else:
@@ -245,7 +250,14 @@ class Histories(Part):
                 if m.base is not None:
                     continue
                 items = [pool[j % len(pool)] for j in op[2]]
-                r = sut(t.join, [x[0] for x in items])
+                how = op[3] if len(op) > 3 else "list"
+                seq = [x[0] for x in items]
+                if how == "reversed":
+                    items = items[::-1]
+                arg = {"list": lambda: seq, "tuple": lambda: tuple(seq), "gen": lambda: (x for x in seq), "iter": lambda: iter(seq), "reversed": lambda: reversed(seq), "map": lambda: map(lambda x: x, seq)}[how]()
+                r = sut(t.join, arg)
+                if how not in ("list", "tuple") and len(seq) and not m.plain:
+                    ctx.cls("join-one-shot-iterable-empty-separator")
                 rm = TM(m.base, [])
                 for k, (_, im) in enumerate(items):
                     rm = rm.append_model(im)
@@ -265,8 +277,8 @@ class Histories(Part):
                         pieces.append((pos, mt.end() if incl else mt.start()))
                         pos = mt.end()
                     pieces.append((pos, len(s)))
-                    if not blank and s.endswith(sep):
-                        pieces.pop()
+                    if not blank and pieces[-1][0] == len(s):
+                        pieces.pop()   # the string ends with a separator: the empty piece after it is dropped
                 if len(lines) != len(pieces):
                     ctx.violation("plain", "C05/plain/split", "%s: %d pieces %r, str.split gives %d" % (desc, len(lines), [l.plain for l in lines], len(pieces)))
                     return
